@@ -51,6 +51,10 @@ type Setting struct {
 	Param string `json:"p"` // retries | wait | conc | stop
 	Form  string `json:"f"` // opt | builder
 	Val   int    `json:"v"` // wait in ms; stop: 1 = stop, 0 = continue
+	// Plain: the constructor option is handed over as an unnamed func(*BaseNode)
+	// value (a preset, a literal, an option that went through a variable of that
+	// type) instead of the named NodeOption type
+	Plain bool `json:"plain,omitempty"`
 }
 
 type Conn struct {
@@ -106,6 +110,11 @@ type NodeSpec struct {
 type CtxSpec struct {
 	Kind       string `json:"kind,omitempty"`        // "" background | cancel | deadline | precancel | predeadline
 	DeadlineUs int64  `json:"deadline_us,omitempty"` // offset from the start of the run
+	// Impl: which Context implementation carries the cancellation. "" standard
+	// WithCancel/WithDeadline | cause (WithCancelCause / WithDeadlineCause with a
+	// custom cause: Err() is still Canceled / DeadlineExceeded) | custom (a
+	// hand-written Context with its own Done/Err on top of a live standard one)
+	Impl string `json:"impl,omitempty"`
 }
 
 type Canceller struct {
